@@ -7,24 +7,26 @@ package items
 // Representation invariant of an item set: itemMap holds exactly the items listed in Items, Items has no nil
 // entries and no duplicates.
 //@ def repIC(IC *ItemCloure) = IC != nil &&
-//@     (forall i int :: 0 <= i && i < len(IC.Items) ==> IC.Items[i] != nil && allocated(IC.Items[i]) && has(IC.itemMap, *IC.Items[i]) && IC.itemMap[*IC.Items[i]]) &&
-//@     (forall it Item :: has(IC.itemMap, it) && IC.itemMap[it] ==> (exists i int :: 0 <= i && i < len(IC.Items) && *IC.Items[i] == it)) &&
-//@     (forall i, j int :: 0 <= i && i < j && j < len(IC.Items) ==> *IC.Items[i] != *IC.Items[j])
+//@     (forall i int :: {IC.Items[i]} 0 <= i && i < len(IC.Items) ==> IC.Items[i] != nil && allocated(IC.Items[i]) && has(IC.itemMap, *IC.Items[i]) && IC.itemMap[*IC.Items[i]]) &&
+//@     (forall it Item :: {IC.itemMap[it]} has(IC.itemMap, it) && IC.itemMap[it] ==> (exists i int :: 0 <= i && i < len(IC.Items) && *IC.Items[i] == it)) &&
+//@     (forall i, j int :: {IC.Items[i], IC.Items[j]} 0 <= i && i < j && j < len(IC.Items) ==> *IC.Items[i] != *IC.Items[j])
+
+//@ def inIC(IC *ItemCloure, it Item) = has(IC.itemMap, it) && IC.itemMap[it]
 
 //@ func (*ItemCloure).InsertItem
-//@ props C09 C01
+//@ props C09 C01 C02 C06
 //@ results n
 //@ requires IC != nil && It != nil && allocated(It)
-//@ ensures [C09] old(repIC(IC)) ==> repIC(IC)
-//@ ensures [C09] old(has(IC.itemMap, *It) && IC.itemMap[*It]) ==> n == 0 && IC.Items == old(IC.Items)
-//@ ensures [C09] !old(has(IC.itemMap, *It) && IC.itemMap[*It]) ==> n == 1 && len(IC.Items) == old(len(IC.Items)) + 1 && IC.Items[old(len(IC.Items))] == It &&
+//@ ensures [C09,C01,C02,C06] old(repIC(IC)) ==> repIC(IC)
+//@ ensures [C09,C01,C02,C06] old(has(IC.itemMap, *It) && IC.itemMap[*It]) ==> n == 0 && IC.Items == old(IC.Items) && IC.itemMap == old(IC.itemMap)
+//@ ensures [C09,C01,C02,C06] !old(has(IC.itemMap, *It) && IC.itemMap[*It]) ==> n == 1 && len(IC.Items) == old(len(IC.Items)) + 1 && IC.Items[old(len(IC.Items))] == It &&
 //@     (forall i int :: 0 <= i && i < old(len(IC.Items)) ==> IC.Items[i] == old(IC.Items[i]))
 //@ modifies IC.Items, IC.itemMap
 
 //@ func (*ItemCloure).InsertGoTO
-//@ props C09
+//@ props C09 C01 C02 C06
 //@ results n
 //@ requires IC != nil && Goto != nil
-//@ ensures [C09] old(IC.GoToMap[Goto.Sym]) != nil ==> n == 0 && IC.GoTo == old(IC.GoTo)
-//@ ensures [C09] old(IC.GoToMap[Goto.Sym]) == nil ==> n == 1 && len(IC.GoTo) == old(len(IC.GoTo)) + 1 && IC.GoTo[old(len(IC.GoTo))] == Goto && IC.GoToMap[Goto.Sym] == Goto
+//@ ensures [C09,C01,C02,C06] old(IC.GoToMap[Goto.Sym]) != nil ==> n == 0 && IC.GoTo == old(IC.GoTo)
+//@ ensures [C09,C01,C02,C06] old(IC.GoToMap[Goto.Sym]) == nil ==> n == 1 && len(IC.GoTo) == old(len(IC.GoTo)) + 1 && IC.GoTo[old(len(IC.GoTo))] == Goto && IC.GoToMap[Goto.Sym] == Goto
 //@ modifies IC.GoTo, IC.GoToMap
